@@ -7,7 +7,9 @@ import subprocess
 VERIF = os.path.dirname(os.path.dirname(os.path.abspath(__file__)))
 LEVELS = {
     "C09": ("PARTIAL. Proved: for every sequence of the registration operations (creation, deletion with __del__, replace_vertex) a vertex "
-            "lists a mesh edge / cell exactly when it exists and is attached to it; the model is tied to vertex.py / edge.py / cell.py by "
+            "lists a mesh edge / cell exactly when it exists and is attached to it; for the resampling path: rebuilt edges stored under their own ids, "
+            "joining existing vertices, cells non-empty without repeated vertex, and consecutive vertices of every resampled cycle joined by a rebuilt "
+            "edge under executable premises evaluated on every resampled mesh; the model is tied to vertex.py / edge.py / cell.py by "
             "exact comparison of ownEdges / ownCells after random operation sequences. Every parser, generate_mesh, join_two_vertices and "
             "Frame are exercised by the oracle with all five clauses evaluated on the implementation objects after every step", "5/C09",
             "Coq invariant over all operation sequences + exact correspondence + construction-path oracle (partial)"),
@@ -39,12 +41,12 @@ LEVELS = {
             "Coq theorems (interning, orientation) + exact correspondence + Voronoi oracle (partial)"),
     "C01": ("theorems over R: force balance makes (T/mean T, 0) an exact solution of the augmented system; an injective augmented matrix has a single non-negative minimiser; together with C02 (rows) and C05 (certified minimiser) this is the property; end to end on Voronoi / Moebius tissues (all back-ends, fits, resampling, axis-aligned first segments, extreme length units): tangents within the calibrated circle-fit accuracy, reported tensions fit the assembled equations as well as the true ones, recovery error within the derived bound (2|E T| + eps_res)/sigma_min; D1 attributed", "5/C01",
             "Coq theorems (equilibrium solves / uniqueness) + analytic end-to-end oracle"),
-    "C03": ("the same two theorems with b = M T (unit mobility) plus C13's placement / finite-difference theorems; end-to-end recovery "
+    "C03": ("the same two theorems with b = M T plus C13's placement / finite-difference theorems and the unit-mobility theorems (displacement = elapsed time x F gives velocity F for every non-zero step, forward and backward, any renumbering); end-to-end recovery "
             "from generated motions (forward / backward, unequal steps, independent renumbering incl. id 0) within the tolerance "
             "implied by the three-decimal rounding", "5/C03", "Coq theorems + generated-motion oracle"),
     "C06": ("PARTIAL. Proved over R: the stated tangent orientation commutes with rotations, positive scalings and reflections; a rotation of a junction's two equations preserves the squared residual; the multiplier column (1,1) is not rotation invariant (refutation = known finding D3); a change of units (all velocities x k) leaves the adimensional right-hand side unchanged and multiplies the reported system velocity by k. End-to-end invariance of tensions, pressures and coefficient pairs is evaluated by the oracle with tolerances derived from coordinate rounding, circle-fit accuracy and the least-squares perturbation bound, D1 / D3 attributed", "5/C06",
             "Coq theorems (equivariance) + transformed-pair oracle (partial)"),
-    "C04": ("PARTIAL. Proved: every pressure equation has one +1 and one -1 at its interface's two cells, flipping the first cell's orientation negates the row; the turning estimate (np.gradient curvature, trapezoid rule) is zero on collinear points however spaced, invariant under translation and uniform scaling by any non-zero factor, and odd under reversal of the storage direction, so that the whole equation does not depend on the direction (over R); zero re-insertion puts 0 exactly at the dropped cells' positions and keeps the other entries in order; pressures reach the cells by dictionary position. Tested by the oracle only: side of the centre of curvature, 3% accuracy on uniformly sampled arcs, zero-sum least-squares optimality, linearity in the tensions, 0.9 correlation (known finding D24)", "5/C04",
+    "C04": ("PARTIAL. Proved: every pressure equation has one +1 and one -1 at its interface's two cells, flipping the first cell's orientation negates the row; the turning estimate (np.gradient curvature, trapezoid rule) is zero on collinear points however spaced, invariant under translation and uniform scaling by any non-zero factor, and odd under reversal of the storage direction, so that the whole equation does not depend on the direction (over R); zero re-insertion puts 0 exactly at the dropped cells' positions and keeps the other entries in order; pressures reach the cells by dictionary position; a solution of the bordered normal equations is a zero-sum least-squares solution, and on a connected tissue (difference rows linking every cell to the first) the bordered system has no other solution. Tested by the oracle only: side of the centre of curvature, 3% accuracy on uniformly sampled arcs, that numpy's inverse solves the bordered system (against an independent solve; the theorem's premises are checked on the reported pressures), linearity in the tensions, 0.9 correlation (known finding D24)", "5/C04",
             "Coq theorems on a Gallina model + differential correspondence + analytic oracle (partial)"),
     "C07": ("PARTIAL. Proved: injective renumbering of vertices and arbitrary renumbering of cells renames the interface list and changes nothing else (not even order); starting a cell's cycle at another vertex rotates the cell's interface list; storing a cell in the opposite rotational sense gives the same interfaces traversed backwards; for whole tissues any per-cell combination of shifts and flips leaves the set of interfaces unchanged up to direction (both inclusions); pressure rows negate under a flip of the first cell. Invariance of the equations, tensions per cell pair and pressures per physical cell is evaluated by the oracle with tolerances derived from the measured order sensitivity of the circle fit", "5/C07",
             "Coq theorem (renaming) + relabelling oracle (partial)"),
@@ -65,7 +67,8 @@ LEVELS = {
     "C02": ("theorems: one unknown per internal interface, row pairs exactly for the junctions whose equations received >=3 (<4 "
             "with ignore_four) coefficient pairs at rows 2k/2k+1, placement of versors by eid_from_vertex (under H_col), the "
             "stated tangent orientation over R, the code's sign-forcing rule proved equal to it under H_quad and refuted "
-            "otherwise (known finding D1); matrix tied to fmatrix/edge code by exact rational correspondence; analytic-tangent oracle",
+            "otherwise (known finding D1); the dlite fit has the true centre as its only global minimiser on concyclic points, the collinear shortcut is similarity invariant; "
+            "matrix tied to fmatrix/edge code by exact rational correspondence, objective_f and the shortcut tied to Model/CircleFit.v; analytic-tangent oracle",
             "5/C02", "Coq theorems on a Gallina model + differential correspondence + analytic oracle"),
     "C05": ("kernel-checked sufficiency of slackened KKT conditions for non-negative least squares (all dimensions, all "
             "competitors) and soundness of an executable integer certificate checker; every captured solve is certified by "
